@@ -48,6 +48,7 @@ static FILE * g_out;
 static std::mutex g_logm;
 static Obj * obj;
 static int g_init = 0;
+static long g_wrapDist = -1;      // "<k>w<d>:" = the generation counter is placed d additions before its wrap-around after the initial callbacks (CallbackList only)
 static std::vector<std::vector<std::string> > g_prog;
 static thread_local int t_self = 9;
 static unsigned long long g_rng = 88172645463325252ULL;
@@ -84,6 +85,8 @@ static bool parseScenario(const std::string & s)
 	size_t c = s.find(':');
 	if(c == std::string::npos) return false;
 	g_init = std::atoi(s.substr(0, c).c_str());
+	size_t w = s.substr(0, c).find('w');
+	g_wrapDist = w == std::string::npos ? -1 : std::atol(s.substr(w + 1, c - w - 1).c_str());
 	std::stringstream ss(s.substr(c + 1)); std::string th;
 	while(std::getline(ss, th, '|')) {
 		std::vector<std::string> ops; std::stringstream st(th); std::string op;
@@ -100,6 +103,11 @@ static void execute(long execNo, unsigned seed)
 	// handles: the initial ones are shared read-only; each thread keeps its own additions
 	std::vector<Handle> initial(g_init + 1);
 	for(int i = 1; i <= g_init; ++i) { initial[i] = doAppend(i); std::fprintf(g_out, "{\"e\":\"in\",\"a\":%d}\n", i); }
+#if W_OBJ == 0
+	if(g_wrapDist >= 0) obj->verifSetCurrentCounter(0xffffffffu - (unsigned)g_wrapDist);
+#else
+	if(g_wrapDist >= 0) { std::fprintf(stderr, "counter placement needs the plain CallbackList\n"); std::exit(2); }
+#endif
 	std::fprintf(g_out, "{\"e\":\"go\"}\n");
 	std::atomic<int> ready(0);
 	std::vector<std::thread> threads;
